@@ -124,6 +124,13 @@ class C19Episode(Episode):
             for a, b in zip(sp, sp[1:]):
                 if not (self.paced.get(a.pid) and self.paced.get(b.pid)):
                     continue
+                if str(a.death_cause).startswith('sup:') and \
+                        a.death_time is not None and \
+                        a.death_time <= b.spawn_time:
+                    # the daemon itself terminated the earlier one meanwhile
+                    # (a start called off by a hook, a stop): the later spawn
+                    # belongs to another start, not to the same sequence
+                    continue
                 self.probes['paced_gaps_checked'] += 1
                 if b.spawn_time - a.spawn_time < wd - EPS:
                     self.viol('warmup_delay_not_kept',
@@ -148,7 +155,8 @@ class C19(Prop):
     rule = ('one case = 2-5 watchers with seeded priorities (ties, '
             'negatives), numprocesses 1-4, per-watcher and global warmup '
             'delays (0 included), autostart flags, in 15 % before_spawn hooks '
-            'that block for a different time at each call; triggers: daemon start, '
+            'that block for a different time at each call, in 12 % a hook that '
+            'calls a watcher\'s start off after it has spawned; triggers: daemon start, '
             'stop-all then start (all), start / restart with a glob matching '
             'several watchers; worker deaths during the start sequence. the '
             'kernel spawn log (virtual timestamps) inside each start window '
@@ -226,6 +234,19 @@ class C19(Prop):
                                                'block:0.2', 'block:0.6',
                                                'block:1.5'])
                                    for _ in range(8)], 'ignore': False}}
+        if rng.random() < 0.12:
+            # a watcher whose start is called off after it has spawned (a
+            # hook answers false): the next one still waits its turn
+            wc = rng.choice(cfg['watchers'])
+            wc['opts']['numprocesses'] = max(2, wc['opts']['numprocesses'])
+            wc['opts'].pop('singleton', None)
+            if rng.random() < 0.5:
+                wc['hooks'] = {'after_start': {'script': ['false'],
+                                               'ignore': False}}
+            else:
+                wc['hooks'] = {rng.choice(['before_spawn', 'after_spawn']): {
+                    'script': ['true', 'false'], 'ignore': False}}
+            cfg['warmup_delay'] = rng.choice([0.5, 1.1])
         for _ in range(rng.choice([0, 1, 2, 3])):
             kind = rng.choice(['startall', 'restartglob', 'startglob'])
             glob = rng.choice(['w*', 'w*', 'W*', 'w[0-2]', 'w[13]', '*'])
